@@ -6,6 +6,8 @@ import (
 	"io"
 	"os"
 	"strings"
+
+	"github.com/piprate/json-gold/ld"
 )
 
 // "pipe" cases: an entry point, inputs built to make one stage fail, and the outcome of every
@@ -126,6 +128,67 @@ func dataVariants(repo string) []dataVariant {
 	return vs
 }
 
+// jsonldCandidates: JSON documents that JSON-LD processing may or may not reject; each is classified by
+// running the processor itself (the property quantifies over "all JSON documents JSON-LD rejects")
+var jsonldCandidates = []string{
+	`{"@id":"http://a","@type":"http://c/T","@direction":"ltr"}`,
+	`{"@graph":{"@index":"x","@value":5}}`,
+	`{"@id":"http://a","@index":5}`,
+	`{"@id":"http://a","http://p":{"@value":"x","@direction":"up"}}`,
+	`{"@id":"http://a","http://p":{"@value":{"a":1}}}`,
+	`{"@id":"http://a","http://p":{"@value":"x","@type":"_:b"}}`,
+	`{"@id":"http://a","http://p":{"@value":"x","@type":5}}`,
+	`{"@id":"http://a","http://p":{"@value":"x","@language":"en","@type":"http://t"}}`,
+	`{"@id":"http://a","http://p":{"@list":[1],"@id":"http://b"}}`,
+	`{"@id":"http://a","http://p":{"@set":[1],"@index":5}}`,
+	`{"@id":"http://a","@reverse":"x"}`,
+	`{"@id":"http://a","@reverse":{"http://p":{"@value":1}}}`,
+	`{"@id":"http://a","@reverse":{"@id":"http://b"}}`,
+	`{"@id":"http://a","@graph":5}`,
+	`{"@id":"http://a","@included":5}`,
+	`{"@id":"http://a","@nest":5}`,
+	`{"@id":"http://a","@type":{"@id":"http://t"}}`,
+	`{"@id":"http://a","@type":[["http://t"]]}`,
+	`{"@id":"http://a","@type":null}`,
+	`{"@id":{"@id":"http://a"},"http://p":1}`,
+	`{"@id":null,"http://p":1}`,
+	`{"@id":true,"http://p":1}`,
+	`{"@context":"http://unreachable.invalid/ctx","@id":"http://a"}`,
+	`{"@context":[5],"@id":"http://a"}`,
+	`{"@context":{"t":{"@id":5}},"@id":"http://a"}`,
+	`{"@context":{"t":{"@type":5,"@id":"http://t"}},"@id":"http://a"}`,
+	`{"@context":{"t":{"@container":"@nope","@id":"http://t"}},"@id":"http://a"}`,
+	`{"@context":{"t":{"@reverse":"http://r","@id":"http://t"}},"@id":"http://a"}`,
+	`{"@context":{"@vocab":5},"@id":"http://a"}`,
+	`{"@context":{"@base":5},"@id":"http://a"}`,
+	`{"@context":{"@language":5},"@id":"http://a"}`,
+	`{"@context":{"a":"b","b":"a"},"@id":"http://a","a":1}`,
+	`{"@context":{"@version":2},"@id":"http://a"}`,
+	`{"@context":{"":"http://e/"},"@id":"http://a"}`,
+	`[{"@id":"http://a","http://p":[[1,[2]]]}]`,
+	`{"@id":"http://a","http://p":{"@id":"http://b","@value":1}}`,
+	`{"@value":5}`,
+	`[{"@list":[1]}]`,
+	`{"@graph":[{"@graph":[{"@id":"http://a","http://p":1}]}]}`,
+}
+
+func classifyJsonLd(text string) (rejected bool, ok bool) {
+	var doc any
+	dec := json.NewDecoder(strings.NewReader(text))
+	dec.UseNumber()
+	if err := dec.Decode(&doc); err != nil {
+		return false, false
+	}
+	defer func() {
+		if r := recover(); r != nil {
+			rejected, ok = true, true
+		}
+	}()
+	proc := ld.NewJsonLdProcessor()
+	_, err := proc.Flatten(doc, map[string]any{}, ld.NewJsonLdOptions(""))
+	return err != nil, true
+}
+
 func oracleFor(fail int, how string) []string {
 	o := []string{"ok", "ok", "ok", "ok", "ok", "ok", "ok", "ok"}
 	if fail >= 0 {
@@ -158,6 +221,22 @@ func genPipe(g *G, repo string, out io.Writer, full bool) {
 				continue
 			}
 			emit(entry, "data:"+dv.name, okProfile, dv.text, oracleFor(dv.fail, dv.how))
+		}
+	}
+	for k, cand := range jsonldCandidates {
+		rejected, ok := classifyJsonLd(cand)
+		if !ok {
+			continue
+		}
+		for _, entry := range []int{0, 1, 2, 3} {
+			if !full && entry >= 2 {
+				continue
+			}
+			if rejected {
+				emit(entry, fmt.Sprintf("data:jsonld-rejects-%d", k), okProfile, cand, oracleFor(4, "err"))
+			} else {
+				emit(entry, fmt.Sprintf("data:jsonld-accepts-%d", k), okProfile, cand, oracleFor(-1, ""))
+			}
 		}
 	}
 	for _, entry := range []int{0, 1, 2, 3} {
